@@ -148,6 +148,8 @@ type caseRun struct {
 	completed bool
 	minT      int64
 	maxT      int64
+	perm      []int
+	hot       []int64 // block boundaries above the head's minimum time at the start: the truncation points
 }
 
 func clampT(t int64) int64 {
@@ -341,6 +343,12 @@ func (c *caseRun) snapshot() {
 	}
 	if c.db.DB.VerifLastGCMmapRef() != 0 {
 		c.gcRef0 = 1
+	}
+	if hm := h.MinTime(); hm > -tClamp && hm < tClamp {
+		lo := (hm / blockRange) * blockRange
+		for t := lo; t <= lo+3*blockRange; t += blockRange {
+			c.hot = append(c.hot, t)
+		}
 	}
 	c.gen = 0
 }
@@ -723,10 +731,22 @@ func (c *caseRun) pickRange() (int64, int64) {
 			cand = append(cand, c.table[r.Intn(len(c.table))].t)
 		}
 	}
-	if r.Chance(1, 3) {
+	if r.Chance(1, 4) {
 		return c.minT - 5, c.maxT + 5
 	}
 	a, b := gen.Pick(r, cand), gen.Pick(r, cand)
+	if r.Chance(1, 2) && len(c.hot) > 0 {
+		// one end exactly on / next to a truncation point of this run
+		h := gen.Pick(r, c.hot) + r.Range(-1, 1)
+		if r.Chance(2, 3) {
+			b = h
+			if r.Chance(1, 2) {
+				a = c.minT - 5
+			}
+		} else {
+			a = h
+		}
+	}
 	if a > b {
 		a, b = b, a
 	}
@@ -833,6 +853,55 @@ func (c *caseRun) randomAction(busy int) {
 	}
 }
 
+// holdLoop keeps queriers open until the maintenance run is parked in one of its waits: every
+// wait of the protocol (db.mtx, reader waits of truncateMemory / truncateOOO, Block.Close) is
+// reached with a querier that it has to wait for.
+func (c *caseRun) holdLoop() {
+	r := c.r
+	for round := 0; round < 300 && !c.comp.done; round++ {
+		creating, open := c.live()
+		if c.comp.parked {
+			switch {
+			case len(creating) > 0 && (len(open) == 0 || r.Chance(1, 2)):
+				q := gen.Pick(r, creating)
+				if q.act.parked {
+					if len(open) == 0 {
+						return
+					}
+					q2 := gen.Pick(r, open)
+					c.iterate(q2)
+					c.closeQ(q2)
+				} else {
+					c.advance(q.act)
+				}
+			case len(open) > 0:
+				q := gen.Pick(r, open)
+				c.iterate(q)
+				c.closeQ(q)
+			default:
+				return
+			}
+			continue
+		}
+		if len(creating)+len(open) < 3 && r.Chance(2, 5) {
+			var q *qry
+			if r.Chance(1, 2) {
+				q = c.newQuerierRange(c.minT-5, c.maxT+5)
+			} else {
+				q = c.newQuerier()
+			}
+			c.advance(q.act)
+			if r.Chance(2, 3) {
+				for !q.act.done && !q.act.parked {
+					c.advance(q.act)
+				}
+			}
+			continue
+		}
+		c.advance(c.comp)
+	}
+}
+
 func (c *caseRun) drain() {
 	for round := 0; round < 400; round++ {
 		creating, open := c.live()
@@ -878,7 +947,7 @@ type result struct {
 func runCase(seed uint64, idx int, root string) (res result) {
 	r := gen.Fork(seed, idx)
 	c := &caseRun{idx: idx, r: r, index: map[smp]int{}, blocks: map[string]*blk{}, dist: map[string]int{}}
-	c.prog = gen.Pick(r, []string{"compact", "compact", "compact", "planner", "planner", "ooo", "merge"})
+	c.prog = gen.Pick(r, []string{"compact", "compact", "planner", "planner", "planner", "ooo", "merge", "merge"})
 	dir, err := os.MkdirTemp(root, "db")
 	if err != nil {
 		panic(err)
@@ -929,12 +998,26 @@ func runCase(seed uint64, idx int, root string) (res result) {
 			c.advance(q.act)
 		}
 	}
+	if c.prog == "planner" && r.Chance(1, 2) {
+		// start interleaving where block compaction (and the deletion of its parents) begins
+		for i := 0; i < 200 && !c.comp.done && !c.comp.parked && c.lastSite != "c06.ooo.done"; i++ {
+			c.advance(c.comp)
+		}
+		place = -1
+		c.dist["placement:at-block-compaction"]++
+	}
 	for i := 0; i < place && !c.comp.done; i++ {
 		c.advance(c.comp)
 	}
-	steps := 25 + r.Intn(40)
-	for i := 0; i < steps; i++ {
-		c.randomAction(35)
+	if idx%3 == 1 {
+		c.dist["mode:hold"]++
+		c.holdLoop()
+	} else {
+		c.dist["mode:random"]++
+		steps := 25 + r.Intn(40)
+		for i := 0; i < steps; i++ {
+			c.randomAction(35)
+		}
 	}
 	c.drain()
 	// a last querier over everything, after the run
@@ -988,26 +1071,49 @@ func tlist(vs []int64) string {
 	}
 	return gallina.List(it)
 }
-func ilist(vs []int) string {
-	it := make([]string, len(vs))
-	for i, v := range vs {
-		it[i] = fmt.Sprint(v)
+// ilist prints table indices run-length encoded: start, length, start, length, ...
+func (c *caseRun) ilist(vs []int) string {
+	var it []string
+	for i := 0; i < len(vs); {
+		j := i + 1
+		for j < len(vs) && c.perm[vs[j]] == c.perm[vs[j-1]]+1 {
+			j++
+		}
+		it = append(it, fmt.Sprint(c.perm[vs[i]]), fmt.Sprint(j-i))
+		i = j
 	}
 	return gallina.List(it)
 }
 
 func (c *caseRun) term() string {
+	// the acknowledged samples are sent sorted by (series, time); perm maps harness index -> wire index
+	order := make([]int, len(c.table))
+	for i := range order {
+		order[i] = i
+	}
+	sort.SliceStable(order[:c.nacked], func(a, b int) bool {
+		x, y := c.table[order[a]], c.table[order[b]]
+		if x.sid != y.sid {
+			return x.sid < y.sid
+		}
+		return x.t < y.t
+	})
+	c.perm = make([]int, len(c.table))
+	for w, h := range order {
+		c.perm[h] = w
+	}
 	var tb []string
-	for _, s := range c.table {
+	for _, h := range order {
+		s := c.table[h]
 		tb = append(tb, fmt.Sprintf("RS %s %s %s", u(s.sid), ut(s.t), u(s.v)))
 	}
 	var bl []string
 	for _, k := range c.initBlk {
-		bl = append(bl, fmt.Sprintf("RB %s %s %s %s", u(k.id), ut(k.mint), ut(k.maxt), ilist(k.samples)))
+		bl = append(bl, fmt.Sprintf("RB %s %s %s %s", u(k.id), ut(k.mint), ut(k.maxt), c.ilist(k.samples)))
 	}
 	var oc []string
 	for i, l := range c.oooCh {
-		oc = append(oc, fmt.Sprintf("RC %s %s", u(c.oooRef[i]), ilist(l)))
+		oc = append(oc, fmt.Sprintf("RC %s %s", u(c.oooRef[i]), c.ilist(l)))
 	}
 	var tr []string
 	for _, e := range c.trace {
@@ -1015,7 +1121,7 @@ func (c *caseRun) term() string {
 	}
 	var outs []string
 	for _, o := range c.outs {
-		outs = append(outs, fmt.Sprintf("RO %s %s", u(o.q), ilist(o.res)))
+		outs = append(outs, fmt.Sprintf("RO %s %s", u(o.q), c.ilist(o.res)))
 	}
 	var held []string
 	for _, h := range c.held {
@@ -1027,14 +1133,14 @@ func (c *caseRun) term() string {
 	}
 	return fmt.Sprintf("wCase %d %d %s\n  %s %s %s %s %s %s %s\n  %s\n  %s\n  %s %d %d",
 		c.idx, c.nacked, gallina.List(tb),
-		ilist(c.headIno), ut(c.headMint), gallina.List(oc), ut(c.oooMint), ut(c.oooMaxt), gallina.List(bl), u(c.gcRef0),
+		c.ilist(c.headIno), ut(c.headMint), gallina.List(oc), ut(c.oooMint), ut(c.oooMaxt), gallina.List(bl), u(c.gcRef0),
 		gallina.List(tr), gallina.List(outs), gallina.List(held), comp, len(c.problems))
 }
 
 func main() {
 	f := gallina.ParseFlags()
 	meta := gallina.NewMeta("C06", f.Seed, f.Tier)
-	meta.Rule = "each case = one real tsdb.DB with a generated history (1-3 series, in-order + out-of-order samples, usually blocks from an earlier compaction) and one maintenance run (DB.Compact without / with block compaction, CompactOOOHead, forced merge) stopped at every c06 site; the run is first advanced `placement` (= index mod 26) steps, then 25-65 scheduler actions are drawn (step maintenance / begin a querier / step a querier's creation / iterate / close), then everything is drained; non-trivial = at least one querier was begun or iterated while the maintenance run was in progress; distinct by (seed, index)"
+	meta.Rule = "each case = one real tsdb.DB with a generated history (1-3 series, in-order + out-of-order samples, usually blocks from an earlier compaction) and one maintenance run (DB.Compact without / with block compaction, CompactOOOHead, forced merge) stopped at every c06 site; the run is first advanced `placement` (= index mod 26) steps, then either 25-65 scheduler actions are drawn (step maintenance / begin a querier / step a querier's creation / iterate / close) or (index mod 3 = 1, `hold` mode) queriers are kept open until the maintenance run is parked in a wait and only then iterated and closed; then everything is drained; non-trivial = at least one querier was begun or iterated while the maintenance run was in progress; distinct by (seed, index)"
 	if pf := os.Getenv("C06_PROF"); pf != "" {
 		fh, _ := os.Create(pf)
 		pprof.StartCPUProfile(fh)
